@@ -341,3 +341,51 @@ def rule_totals(ck, repo, R):
                   file=f.file, line=f.lineno, func=f.qualname)
         ck.decide(iterates, R, f'{name}:all-atoms', None, f'{name} no longer aggregates over self.atoms()', file=f.file, line=f.lineno, func=f.qualname)
         ck.decide(f.cache_kind == 'cached_property', R, f'{name}:cached', f.cache_kind, f'{name} is no longer a cached_property (flush protocol key)', file=f.file, line=f.lineno)
+
+
+# ---- valence parity of the exception tables (p-block) ------------------------------------------------------------------------------------------
+PARITY_MODULES = ('groupXIII', 'groupXIV', 'groupXV', 'groupXVI', 'groupXVII', 'groupXVIII')
+PARITY_EXEMPT = {
+    ('B', (0, False, 0, ())): 'elemental boron atom: no bonds, no hydrogens',
+    ('P', (0, False, 0, ())): 'elemental phosphorus atom: no bonds, no hydrogens',
+}
+PARITY_EXEMPT_ELEMENTS = {'Bi': 'metal with even oxidation states in its salts (BiCl2, BiS, BiO2 rows are written as such in the table)'}
+
+
+def rule_valence_parity(ck, repo, R):
+    ck.rule(R, 'p-block exception tables: for every row (charge, radical, implicit H, environment) the total valence  H + sum of bond orders  has the '
+               'parity of the element\'s common valences, shifted by one for every unit of charge and for a radical (329 of 340 rows; the 11 others are a '
+               'frozen table with reasons). A wrong hydrogen count or bond order in a row breaks the parity')
+    n = 0
+    for m in repo.modules.values():
+        if m.name.rsplit('.', 1)[-1] not in PARITY_MODULES or not m.name.startswith('chython.periodictable.'):
+            continue
+        for c in m.classes.values():
+            cv, ve = c.method('_common_valences'), c.method('_valences_exceptions')
+            if cv is None or ve is None:
+                continue
+
+            def lit(f):
+                for s in ast.walk(f.node):
+                    if isinstance(s, ast.Return):
+                        return ast.literal_eval(s.value)
+            try:
+                common, exc = lit(cv), lit(ve)
+            except (ValueError, SyntaxError):
+                raise AnalysisError(f'{c.name}: valence tables are no longer literals')
+            par = {v % 2 for v in common if v}
+            if len(par) != 1 or c.name in PARITY_EXEMPT_ELEMENTS:
+                continue
+            for row in exc:
+                charge, rad, h, env = row
+                n += 1
+                total = h + sum(o for o, _ in env)
+                p = (total + abs(charge) + (1 if rad else 0)) % 2
+                key = (c.name, (charge, rad, h, tuple(tuple(x) for x in env)))
+                if p in par or key in PARITY_EXEMPT:
+                    continue
+                ck.bad(R, f'{c.name}:{row}', f'{c.name}: exception row {row} has total valence {total} (H {h} + bonds {total - h}) with charge {charge}, radical {rad}: parity '
+                                              f'does not fit the common valences {common}; a hydrogen count or bond order of the row is off by one',
+                       file=m.relpath, line=ve.lineno, func=f'{c.name}._valences_exceptions', construct=str(row))
+    ck.ok(R, 'rows', f'{n} rows of p-block exception tables fit the parity rule ({len(PARITY_EXEMPT)} frozen exceptions, {len(PARITY_EXEMPT_ELEMENTS)} exempt element)')
+    ck.require(n >= 300, f'{R}: only {n} rows inspected')
